@@ -281,10 +281,14 @@ class RulesMixin:
         fr.locals.update(env)
         if old_env is not None:
             fr.old = old_env
+        b0 = getattr(self, "bottoms", 0)
         try:
-            return self.ev(cl.node, fr)
+            v = self.ev(cl.node, fr)
         except PyRaise as pr:
             raise ContractError(f"clause {cl.name} ({cl.text}) raised {pr}")
+        if getattr(self, "bottoms", 0) != b0 and getattr(self, "qmode", "prove") == "prove":
+            raise ContractError(f"clause {cl.name}: partial operation {getattr(self, 'bottom_where', '')} is not guarded (the clause would hold vacuously)")
+        return v
 
     def spec_function(self, f):
         return None
@@ -416,7 +420,9 @@ class RulesMixin:
             cmod = None
         for cl in fc.requires:
             v = self.spec_eval(cl, env, None, cmod)
-            ctx.prove(f"{unit}.call.{cl.name}", self.as_z3_bool(v), cl.text, fr.where(), note=f"precondition of {fc.qualname}", props=cl.props)
+            # a precondition at a call site is the caller's obligation: it counts for whichever
+            # property the calling unit is checked under
+            ctx.prove(f"{unit}.call.{cl.name}", self.as_z3_bool(v), cl.text, fr.where(), note=f"precondition of {fc.qualname}", props=())
         old_env = self.snapshot_env(env)
         # exceptional alternatives
         alts = ["normal"]
@@ -902,7 +908,8 @@ class RulesMixin:
         elif isinstance(it, (set, frozenset)):
             conc = sorted(it, key=repr)
         elif isinstance(it, MapKeyList):
-            conc, tail = [], it
+            conc, tail = [], SymSeq(it.ks, "int")
+            fr.locals["_it"] = it
         elif isinstance(it, PList):
             conc = list(it.items)
             tail = it.sym
@@ -979,6 +986,7 @@ class RulesMixin:
             env["_i"] = i
             if tail is not None and isinstance(tail, SymSeq):
                 env["_seq"] = PList(sym=tail)
+                ctx.add_key(z3_of_int(i)) if False else None
             return env
 
         # 1. invariant holds on entry
@@ -1069,6 +1077,12 @@ class RulesMixin:
         r = self.run_body(s.body, fr)
         if r == "break":
             return True
+        # per-iteration postcondition (speaks about what this iteration emitted / called)
+        from .contracts import mk_clauses as _mk
+
+        for cl in _mk(f"{label}.body", spec.get("body_ensures")):
+            v = self.spec_eval_loop(cl, env_for(mk_int(i) if i is not None else 0), pre_env, fr)
+            ctx.prove(f"{unit}.{cl.name}", self.as_z3_bool(v), cl.text, fr.where(), note="postcondition of one loop iteration", props=cl.props)
         for f_, v_ in stable_before.items():
             same = self.unit_self.fields.get(f_, UNSET) is v_
             ctx.prove(f"{unit}.{label}.stable.{f_}", z3.BoolVal(same), f"self.{f_} is not reassigned by the loop body", fr.where(), note="task-stable field across a loop iteration")
